@@ -69,6 +69,24 @@ macro_rules! kat {
         h.update(&[api::try_keygen_with_rng(&mut Failing).is_ok() as u8]);
         h.update(&[sk2.try_sign_with_rng(&mut Failing, msg, ctx).is_ok() as u8]);
         h.update(&[sk2.try_hash_sign_with_rng(&mut Failing, msg, ctx, &Ph::SHA512).is_ok() as u8]);
+        // decisions on malformed variants of a valid signature (this binary is built WITHOUT the hooks feature: it runs the
+        // decoder users run): last byte / last index byte / first z byte perturbed, non-zero padding, all must be rejected
+        {
+            let mut rng = Fixed($rnd);
+            let good = sk2.try_sign_with_rng(&mut rng, msg, ctx).unwrap();
+            let n = good.len();
+            let mut malf = String::new();
+            for (pos, val) in [(n - 1, 0xffu8), (n - 1 - (api::SIG_LEN - n + 1), 0x01), (40, 0x80), (n - 12, 0x01), (n - 13, 0xa5), (n - 14, 0x01)] {
+                let mut bad = good.clone();
+                bad[pos] ^= val;
+                malf.push(if pk2.verify(msg, &bad, ctx) { '1' } else { '0' });
+            }
+            // two padding bytes that cancel under XOR, a constant-filled padding area
+            let mut bad = good.clone(); bad[n - 12] = 0x5a; bad[n - 13] = 0x5a;
+            malf.push(if pk2.verify(msg, &bad, ctx) && bad != good { '1' } else { '0' });
+            h.update(malf.as_bytes());
+            println!("MALF {} {}", $name, malf);
+        }
         let d = h.finalize();
         let hex: String = d.iter().map(|b| format!("{:02x}", b)).collect();
         println!("KAT {} {}", $name, hex);
